@@ -23,6 +23,7 @@
   each theorem.  Only property statements live here; helper lemmas are in KavaVerif/Proofs/Liquid*.lean.
 -/
 import KavaVerif.Proofs.LiquidTally
+import KavaVerif.Proofs.LiquidRate
 set_option linter.unusedSimpArgs false
 set_option linter.unusedVariables false
 
@@ -257,7 +258,9 @@ example : (mint cfg 0 exHealthy 9 true 20).isOk = true ∧ (mint cfg 0 exHealthy
     the minted amount (burn: nothing) — under: x/staking's invariants (`WF`), a sane rate, a validator with
     tokens, a non-negative balance, the holder's claim not exceeding the validator's shares (what backing gives),
     and an exchange rate of at most one token per share after the operation (every validator that was only ever
-    slashed; for a rate r > 1, reachable only through trimmings, the second unit becomes r). -/
+    slashed; for a rate r > 1, reachable only through trimmings, the second unit becomes r: without `hpost` the
+    statement is false — `C12_value_within_two_units_counterexample` — and what holds at every rate is
+    `C12_value_within_one_plus_rate`, finding C12-rate-above-one). -/
 theorem C12_value_within_two_units (accts : List Addr) (hn : accts.Nodup) (M : Addr) (c c' : VSt) (d : Addr)
     (amount : Int) (hM : M ∈ accts) (hd : d ∈ accts) (hne : d ≠ M)
     (hwf : WF accts c) (hrate : SaneRate c) (hTpos : ∀ v, c.val = some v → 0 < v.tokens)
@@ -282,6 +285,125 @@ example : (mint cfg 0 exWhale 1 true 606).okAnd (fun p => decide (ValueWithinTwo
 theorem exWhale_ok : SaneRate exWhale ∧ dm exWhale 1 + exWhale.bal 1 * P ≤ sharesOf exWhale := by
   refine ⟨?_, by decide⟩
   intro v hv; simp only [exWhale, Option.some.injEq] at hv; subst hv; decide
+
+/-! ### A rate above one token per share (finding C12-rate-above-one; the code is NOT repaired: the rounding is
+  x/staking's, and minting the ceiling instead would break backing)
+
+  x/staking's `RemoveDelShares` hands out ⌊shares · tokens / totalShares⌋ tokens; the fraction of a token it keeps
+  raises the validator's rate, and once few shares are left the rate passes one.  `exTrimmedStart` is a validator
+  slashed by 10 % (9 tokens for 10 shares).  Account 2 undelegates 6 tokens' worth (6.666… shares) and is paid 5:
+  4 tokens for 3.333… shares are left — 1.2 tokens per share.  Accounts 1 and 2 then delegate 10 and 100 tokens at
+  that rate: `exRateAboveOne`.  Account 1 now converts 7 tokens: 5.833… shares leave its delegation, 6 tokens move
+  (0.999… left behind), 4.953… shares reach the module, 4 derivative units are minted — the 0.953… share floored
+  away is worth 1.155 tokens, not less than one (the rate is 1.211 afterwards).  The stake of account 1 was worth
+  10.000 base units, it is worth 7.872… afterwards: 2.127 lost, more than two, less than 1 + 1.211. -/
+
+/-- a validator slashed by 10 %: 9 tokens for 10 shares; account 2 holds 9 shares, the operator 9 one -/
+def exTrimmedStart : VSt :=
+  { val := some { tokens := 9, shares := ⟨10 * P⟩, status := .bonded, minSelf := 1, jailed := false, oper := 9 },
+    del := fun a => if a = 2 then some ⟨9 * P⟩ else if a = 9 then some ⟨1 * P⟩ else none,
+    redel := fun _ => false, ubd := fun _ => 0, bal := fun _ => 0, supply := 0 }
+
+/-- the same validator after `undelegate 6` by account 2 and `delegate 10`, `delegate 100` by accounts 1 and 2:
+    114 tokens for 95.000000000000000019 shares (1.2 tokens per share) -/
+def exRateAboveOne : VSt :=
+  { val := some { tokens := 114, shares := ⟨95000000000000000019⟩, status := .bonded, minSelf := 1, jailed := false, oper := 9 },
+    del := fun a => if a = 1 then some ⟨8333333333333333335⟩ else if a = 2 then some ⟨85666666666666666684⟩
+      else if a = 9 then some ⟨1 * P⟩ else none,
+    redel := fun _ => false, ubd := fun _ => 0, bal := fun _ => 0, supply := 0 }
+
+/-- `exRateAboveOne` is what the modelled x/staking messages make of the slashed validator (every field the
+    conversions read: validator record, the four delegations, derivative balance and supply) -/
+example : (match run cfg 0 (fun _ => exTrimmedStart) [.undelegate 2 0 6, .delegate 1 0 10, .delegate 2 0 100] with
+    | some s => decide ((s 0).val = exRateAboveOne.val ∧ (∀ a ∈ exAccts, (s 0).del a = exRateAboveOne.del a) ∧
+        (s 0).bal 1 = 0 ∧ (s 0).supply = 0 ∧ (s 0).redel 1 = false)
+    | none => false) = true := by decide
+
+/-- the witness satisfies every hypothesis of `C12_value_within_two_units` except the rate after the operation -/
+theorem exRateAboveOne_ok : WF exAccts exRateAboveOne ∧ SaneRate exRateAboveOne ∧
+    (∀ v, exRateAboveOne.val = some v → 0 < v.tokens) ∧ 0 ≤ exRateAboveOne.bal 1 ∧
+    dm exRateAboveOne 1 + exRateAboveOne.bal 1 * P ≤ sharesOf exRateAboveOne := by
+  refine ⟨⟨?_, ?_, ?_⟩, ?_, ?_, by decide, by decide⟩
+  · intro a ha; simp only [exAccts, List.mem_cons, List.not_mem_nil, or_false, not_or] at ha
+    simp only [exRateAboveOne, ha.2.1, ha.2.2.1, ha.2.2.2, ite_false]
+  · intro a d hd; simp only [exRateAboveOne] at hd
+    split at hd
+    · cases hd; decide
+    · split at hd
+      · cases hd; decide
+      · split at hd
+        · cases hd; decide
+        · cases hd
+  · intro v hv; simp only [exRateAboveOne, Option.some.injEq] at hv; subst hv; decide
+  · intro v hv; simp only [exRateAboveOne, Option.some.injEq] at hv; subst hv; decide
+  · intro v hv; simp only [exRateAboveOne, Option.some.injEq] at hv; subst hv; decide
+
+/-- **The two-unit clause is false on the live code once a validator's rate exceeds one.**  The statement of
+    `C12_value_within_two_units` with every hypothesis kept except `hpost` (rate ≤ 1 after the operation): refuted
+    by `exRateAboveOne`, account 1 minting 7 — the mint succeeds and the value of the stake drops by 2.127 units. -/
+theorem C12_value_within_two_units_counterexample :
+    ¬ (∀ (accts : List Addr) (hn : accts.Nodup) (M : Addr) (c c' : VSt) (d : Addr) (amount : Int)
+        (hM : M ∈ accts) (hd : d ∈ accts) (hne : d ≠ M)
+        (hwf : WF accts c) (hrate : SaneRate c) (hTpos : ∀ v, c.val = some v → 0 < v.tokens)
+        (hbal : 0 ≤ c.bal d) (hH : dm c d + c.bal d * P ≤ sharesOf c),
+        (∀ der, mint cfg M c d true amount = .ok (c', der) → ValueWithinTwo c c' d) ∧
+        (∀ r, burn cfg M c d amount = .ok (c', r) → ValueWithinTwo c c' d)) := by
+  intro h
+  have w : (mint cfg 0 exRateAboveOne 1 true 7).okAnd (fun p => decide (¬ ValueWithinTwo exRateAboveOne p.1 1)) = true := by
+    decide
+  obtain ⟨⟨c', der⟩, hm, hp⟩ := Res.okAnd_elim w
+  obtain ⟨k1, k2, k3, k4, k5⟩ := exRateAboveOne_ok
+  exact (of_decide_eq_true hp)
+    ((h exAccts (by decide) 0 exRateAboveOne c' 1 7 (by decide) (by decide) (by decide) k1 k2 k3 k4 k5).1 der hm)
+
+/-- **Value within 1 + max(1, r) base units, live model, every rate — the strongest statement that holds.**
+    Same hypotheses as `C12_value_within_two_units` minus the rate: for every successful **mint** the value of the
+    user's stake changes by at most 1 + max(1, r') base units, r' = tokens / shares of the validator after the
+    operation (`ValueWithinOnePlusRate`, cross-multiplied: less than one token is left behind by `RemoveDelShares`,
+    less than one share — worth r' — is lost to the floor on the minted amount), and a *gain* never exceeds two
+    units.  For every successful **burn** the two-unit bound holds at every rate (nothing is floored on a burn).
+    At r' ≤ 1 the bound is the two units of `C12_value_within_two_units`
+    (`C12_value_bounds_agree_at_rate_le_one`). -/
+theorem C12_value_within_one_plus_rate (accts : List Addr) (hn : accts.Nodup) (M : Addr) (c c' : VSt) (d : Addr)
+    (amount : Int) (hM : M ∈ accts) (hd : d ∈ accts) (hne : d ≠ M)
+    (hwf : WF accts c) (hrate : SaneRate c) (hTpos : ∀ v, c.val = some v → 0 < v.tokens)
+    (hbal : 0 ≤ c.bal d) (hH : dm c d + c.bal d * P ≤ sharesOf c) :
+    (∀ der, mint cfg M c d true amount = .ok (c', der) → ValueWithinOnePlusRate c c' d ∧ GainWithinTwo c c' d) ∧
+    (∀ r, burn cfg M c d amount = .ok (c', r) → ValueWithinOnePlusRate c c' d ∧ ValueWithinTwo c c' d) := by
+  constructor
+  · intro der h
+    exact mint_value_rate accts hn cfg rfl M c c' d amount der hM hd hne hwf hrate hTpos hbal hH h
+  · intro r h
+    have h2 := burn_value_any_rate accts hn cfg M c c' d amount r hM hd hne hwf hrate hTpos hH h
+    refine ⟨valueWithinOnePlusRate_of_two c c' d ?_ h2, h2⟩
+    unfold sharesOf
+    cases hv : c.val with
+    | none => simp
+    | some v =>
+      simp only []
+      rw [(hwf.2.2 v hv).2]
+      exact dsum_nonneg accts c.del hwf.2.1
+
+/-- at a rate of at most one token per share after the operation, 1 + max(1, r') is two: the two statements
+    coincide, so `C12_value_within_two_units` is the r' ≤ 1 case of `C12_value_within_one_plus_rate` -/
+theorem C12_value_bounds_agree_at_rate_le_one (c c' : VSt) (d : Addr)
+    (hpost : ∀ v', c'.val = some v' → v'.tokens * P ≤ v'.shares.m) :
+    ValueWithinOnePlusRate c c' d ↔ ValueWithinTwo c c' d := by
+  apply valueWithinOnePlusRate_iff_two
+  unfold tokensOf sharesOf
+  cases hv : c'.val with
+  | none => simp
+  | some v' => exact hpost v' hv
+
+/-- non-vacuity and tightness: on the witness the mint of 7 gives 4 units, breaks two units, stays within 1 + r
+    (and no gain); burning the 4 units back stays within two units at the rate above one; a mint of 9 on the same
+    validator (0.603… share floored away) changes the value by 1.72 units -/
+example : (mint cfg 0 exRateAboveOne 1 true 7).okAnd (fun p => decide (p.2 = 4 ∧ ¬ ValueWithinTwo exRateAboveOne p.1 1 ∧
+    ValueWithinOnePlusRate exRateAboveOne p.1 1 ∧ GainWithinTwo exRateAboveOne p.1 1 ∧
+    sharesOf p.1 < tokensOf p.1 * P)) = true := by decide
+example : (mint cfg 0 exRateAboveOne 1 true 7).okAnd (fun p =>
+    (burn cfg 0 p.1 1 4).okAnd (fun q => decide (ValueWithinTwo p.1 q.1 1 ∧ sharesOf q.1 < tokensOf q.1 * P))) = true := by decide
+example : (mint cfg 0 exRateAboveOne 1 true 9).okAnd (fun p => decide (ValueWithinTwo exRateAboveOne p.1 1)) = true := by decide
 
 /-- Any configuration: on a validator with exchange rate one and whole shares (never slashed) a mint does not change
     the value of the user's stake at all. -/
